@@ -84,6 +84,7 @@ def next_chunk(data: bytes, pos: int, need: int) -> int | None:
         if len(data) - end < n:
             return None
         end += n
+        line_start = end        # the marker is looked for in the fresh line only
 
 
 def sync_literal_length(chunk: bytes) -> int | None:
